@@ -834,22 +834,19 @@ class BeliefPropagation(Inference):
             frozenset(edge): None for edge in self.junction_tree.edges()
         }
 
-        for clique in self.junction_tree.nodes():
-            if not self._is_converged(operation=operation):
-                neighbors = self.junction_tree.neighbors(clique)
-                # update root's belief using neighbor clique's beliefs
-                # upward pass
-                for neighbor_clique in neighbors:
-                    self._update_beliefs(neighbor_clique, clique, operation=operation)
-                bfs_edges = nx.algorithms.breadth_first_search.bfs_edges(
-                    self.junction_tree, clique
-                )
-                # update the beliefs of all the nodes starting from the root to leaves using root's belief
-                # downward pass
-                for edge in bfs_edges:
-                    self._update_beliefs(edge[0], edge[1], operation=operation)
-            else:
-                break
+        # Two-pass schedule on the tree: collect towards a root, then distribute from it.
+        # (Stopping as soon as `_is_converged` holds is not safe: it compares unnormalised
+        # beliefs with an absolute tolerance, so small potentials look converged at once.)
+        root = next(iter(self.junction_tree.nodes()))
+        bfs_edges = list(
+            nx.algorithms.breadth_first_search.bfs_edges(self.junction_tree, root)
+        )
+        # upward pass: every clique sends to its parent after hearing from all its children
+        for parent, child in reversed(bfs_edges):
+            self._update_beliefs(child, parent, operation=operation)
+        # downward pass: update the beliefs of all the nodes starting from the root to leaves
+        for parent, child in bfs_edges:
+            self._update_beliefs(parent, child, operation=operation)
 
     def calibrate(self):
         """
